@@ -14,7 +14,9 @@ import XlModel.Lemmas.SaveGrid2
 import XlModel.Lemmas.SaveGrid3
 import XlModel.Lemmas.SaveGrid4
 import XlModel.Lemmas.SaveCols2
+import XlModel.Lemmas.SaveCols3
 import XlModel.Lemmas.SaveBook
+import XlModel.Lemmas.SaveBook2
 import XlModel.Lemmas.SaveCols
 import XlModel.Generated.FactsC01
 
@@ -229,8 +231,15 @@ theorem cols_merge_preserves_ranges (lo : Nat) (l : List SaveCols.Col) (h : Save
   rw [SaveCols.sortCols_ranges lo l h]
   exact ⟨SaveCols.look_mergeSorted_ranges lo l h, SaveCols.ranges_mergeSorted lo l h⟩
 
-/-- **open_save_obs**: for every workbook state satisfying `Inv` (every worksheet dense, `<cols>` sorted
-disjoint ranges, free text XML-legal — which `stored_xml_legal` gives for everything `SetCellStr` stores)
+/-- column clause for the list the setters leave in memory (not sorted: `flatCols` appends): for
+well-formed, pairwise non-overlapping ranges in any order, `mergeExpandedCols` (sort + merge) preserves
+what every column resolves to and yields a well-formed list again. -/
+theorem cols_merge_preserves_unsorted (l : List SaveCols.Col) (h : SaveCols.Wf l) :
+    (∀ c, SaveCols.look (SaveCols.mergeCols l) c = SaveCols.look l c) ∧ SaveCols.Wf (SaveCols.mergeCols l) :=
+  SaveCols.mergeCols_wf l h
+
+/-- **open_save_obs**: for every workbook state satisfying `Inv` (every worksheet dense, `<cols>` well-formed
+pairwise non-overlapping ranges in any order — what `flatCols` leaves —, free text XML-legal — which `stored_xml_legal` gives for everything `SetCellStr` stores)
 and every XML layer that returns legal text unchanged, save + open succeeds, the result satisfies `Inv`
 again, and the modelled observation is identical: sheet list with order, names and visibility, active
 tab, defined names (name, refersTo, comment, scope), shared strings, and per worksheet the content at
@@ -296,7 +305,7 @@ theorem inv_witness :
   · intro s hs
     simp only [List.mem_singleton] at hs
     subst hs
-    refine ⟨⟨by decide, ?_⟩, ⟨0, by simp [SaveCols.RangesFrom]⟩, (by unfold SaveBook.LegalS; decide), ?_⟩
+    refine ⟨⟨by decide, ?_⟩, ⟨by simp, by simp⟩, (by unfold SaveBook.LegalS; decide), ?_⟩
     · intro i hi
       have : i = 0 := by simpa using hi
       subst this
@@ -321,6 +330,56 @@ theorem inv_witness :
     simp only [List.mem_singleton] at ht
     subst ht
     exact stored_xml_legal _
+
+/-! ## `inv_step`: the invariant holds on states reached by cell writes -/
+
+/-- **inv_step (cell writes)**: on a worksheet satisfying the invariant, writing through `prepareSheetXML` +
+`fillColumns` + a setter at any cell inside the grid (any of 16384 × 1048576) yields a worksheet that
+satisfies the invariant again, and the observation changes exactly at the written position (last writer
+wins; every other position, the row numbers of existing rows' content, the columns, the merges are
+untouched). Conditions on the setter: it never leaves an inline string on a cell without value, and it
+produces XML-legal text from XML-legal text. -/
+theorem inv_step_write (s : SaveBook.Sheet) (h : SaveBook.SheetInv s) (i j : Nat)
+    (hi : i < Facts.TotalRows) (hj : j < Facts.MaxColumns) (upd : Content → Content)
+    (hu : ∀ k r, hasValue (⟨r, (upd k).s, (upd k).t, (upd k).v, (upd k).f, (upd k).is⟩ : Cell) = false → (upd k).is = none)
+    (hleg : ∀ k, SaveBook.LegalContent k → SaveBook.LegalContent (upd k)) :
+    SaveBook.SheetInv { s with rows := SaveBook.writeCell s.rows i j upd } ∧
+    ∀ a b, Grid.abs (SaveBook.writeCell s.rows i j upd) a b =
+      if a = i ∧ b = j then upd (Grid.abs s.rows i j) else Grid.abs s.rows a b := by
+  obtain ⟨hd, hc, hn, hl⟩ := h
+  refine ⟨⟨SaveBook.writeCell_dense s.rows i j upd hd hi hj hu, hc, hn, ?_⟩, SaveBook.writeCell_abs s.rows i j upd⟩
+  intro a b
+  show SaveBook.LegalContent (Grid.abs (SaveBook.writeCell s.rows i j upd) a b)
+  rw [SaveBook.writeCell_abs]
+  split
+  · exact hleg _ (hl i j)
+  · exact hl a b
+
+/-- the modelled setters meet the conditions of `inv_step_write` -/
+theorem setInt_setBool_ok (n : Int) (b : Bool) :
+    (∀ k r, hasValue (⟨r, (SaveBook.setInt n k).s, (SaveBook.setInt n k).t, (SaveBook.setInt n k).v,
+        (SaveBook.setInt n k).f, (SaveBook.setInt n k).is⟩ : Cell) = false → (SaveBook.setInt n k).is = none) ∧
+    (∀ k r, hasValue (⟨r, (SaveBook.setBool b k).s, (SaveBook.setBool b k).t, (SaveBook.setBool b k).v,
+        (SaveBook.setBool b k).f, (SaveBook.setBool b k).is⟩ : Cell) = false → (SaveBook.setBool b k).is = none) ∧
+    (∀ k, SaveBook.LegalContent k → SaveBook.LegalContent (SaveBook.setBool b k)) :=
+  ⟨fun _ _ _ => rfl, fun _ _ _ => rfl, fun k _ => by
+    cases b <;>
+      exact ⟨(by show SaveBook.LegalS ['b']; unfold SaveBook.LegalS; decide),
+        (by simp only [SaveBook.setBool]; unfold SaveBook.LegalS; decide), trivial, trivial⟩⟩
+
+/-- **set → save → open → get**: on a worksheet satisfying the invariant, after a cell write the saved and
+reopened worksheet shows the written payload at that position and the old content everywhere else. -/
+theorem write_save_open_reads (x : List Char → List Char) (hx : ∀ t, SaveBook.LegalS t → x t = t)
+    (s : SaveBook.Sheet) (h : SaveBook.SheetInv s) (i j : Nat)
+    (hi : i < Facts.TotalRows) (hj : j < Facts.MaxColumns) (upd : Content → Content)
+    (hu : ∀ k r, hasValue (⟨r, (upd k).s, (upd k).t, (upd k).v, (upd k).f, (upd k).is⟩ : Cell) = false → (upd k).is = none)
+    (hleg : ∀ k, SaveBook.LegalContent k → SaveBook.LegalContent (upd k)) :
+    ∃ s', SaveBook.openSheet (SaveBook.wireSheet x (SaveBook.saveSheet
+        { s with rows := SaveBook.writeCell s.rows i j upd })) = .ok s' ∧ SaveBook.SheetInv s' ∧
+      ∀ a b, Grid.abs s'.rows a b = if a = i ∧ b = j then upd (Grid.abs s.rows i j) else Grid.abs s.rows a b := by
+  obtain ⟨hinv, habs⟩ := inv_step_write s h i j hi hj upd hu hleg
+  obtain ⟨s', h1, h2, h3⟩ := SaveBook.cycle_sheet x hx _ hinv
+  exact ⟨s', h1, h2, fun a b => (h3.2.2.1 a b).trans (habs a b)⟩
 
 /-- FIXED FINDING (why a worksheet that stays cached across a save has to be re-densified, which
 `workSheetWriter` now does): `trimRow` alone breaks the representation invariant the setters
